@@ -6,7 +6,7 @@ about loops, the items they visit and what is inserted / pushed for an item, not
 from .common import *
 from .feas import (check_feasibility_rule, origins, PathEval, const_operand, absent_inserts, error_propagates, result_kind,
                    canon, whole, is_const, item_calls, enum_tests,
-                   dominates_ok, dominates_sem, must_pass_sem, loop_must2 as loop_must, returned_struct)
+                   dominates_ok, dominates_sem, must_pass_sem, loop_must2 as loop_must, returned_struct, field_is_none)
 from .C05 import inherited_from
 
 INST = 'v1::Instance'; DV = 'v1::DecisionVariable'; CON = 'v1::Constraint'; RC = 'v1::RemovedConstraint'
@@ -167,8 +167,19 @@ def evaluate_samples_rules(ctx, body):
     ctx.check(T.access_path(body, agg_field_operand(ss, 'sense'))[0] == [(INST, 'sense')], R + '/sense-direct', 'T-CARRY', body.name, 'SampleSet.sense is not self.sense', body.site(sbi))
     # ---- decision variable values: dependencies evaluated and omitted variables completed for every state
     dvs = carry_field(ctx, R + '/decision_variables', body, ss, 'decision_variables', need_fields=[(INST, 'decision_variables')], need_calls=[r'impl v1::Samples>::transpose'], need_params=[2], site=body.site(sbi))
-    sl = [l for l in T.for_loops(body) if ctx.S.slice_operand(body, l[0].args[0]).has_call(r'impl v1::Samples>::states_mut')]
-    ctx.check(len(sl) >= 1, 'C06.sibling/states-loop', 'T-LOOPMUST', body.name, 'no loop over samples.states_mut()', body.site())
+    # the loop that completes every state of (a copy of) the samples: over `samples.states_mut()` (helper iterator) or over
+    # `&mut samples.entries` with the entry's own `state` -- recognised by what it does: it walks the entries of a Samples local and
+    # hands (part of) its item to eval_dependencies as the state
+    def samples_locals(lo):
+        sl_ = ctx.S.slice_operand(body, lo[0].args[0])
+        return {l for l in sl_.locals if l > body.argc and re.fullmatch(r'v1::Samples', body.locals[l])}
+    sl = []
+    for l in T.for_loops(body):
+        its = ctx.S.slice_operand(body, l[0].args[0])
+        if not (its.has_call(r'impl v1::Samples>::states_mut') or its.has_field('v1::Samples', 'entries')) or not samples_locals(l): continue
+        if any(c.bb in l[4] and c.item == 'eval_dependencies' and len(c.args) == 2 and l[0].dst['l'] in ctx.S.slice_operand(body, c.args[1]).locals for c in body.calls): sl.append(l)
+    sl.sort(key=lambda l: -len(l[4]))
+    ctx.check(len(sl) >= 1 and not restricting(ctx, body, sl[0]), 'C06.sibling/states-loop', 'T-LOOPMUST', body.name, 'no loop over all states of the samples (samples.states_mut()) that evaluates the dependencies', body.site())
     tr = [c for c in body.calls if c.item == 'transpose' and c.path.endswith('Samples>::transpose')]
     for lo in sl[:1]:
         nextc, header, some_bb, none_bb, blocks = lo
@@ -195,7 +206,7 @@ def evaluate_samples_rules(ctx, body):
                   'omitted irrelevant variables are not completed with Bound::nearest_to_zero for every state, after its dependencies (Instance::evaluate does this)', body.site(nextc.bb))
         for c in tr:
             ctx.check(dominates_sem(ctx, body, none_bb, c.bb) and c.bb not in blocks, 'C06.sibling/transpose-after-completion', 'T-MUSTCALL', body.name, 'values are transposed before the states are completed', body.site(c.bb))
-            ctx.check(root_local(body, c.args[0]) == root_local(body, [x for x in body.calls if x.item == 'states_mut'][0].args[0]), 'C06.sibling/transpose-same-samples', 'T-CARRY', body.name, 'transpose is applied to other samples than the completed ones', body.site(c.bb))
+            ctx.check(root_local(body, c.args[0]) in samples_locals(lo), 'C06.sibling/transpose-same-samples', 'T-CARRY', body.name, 'transpose is applied to other samples than the completed ones', body.site(c.bb))
     ctx.check(len(tr) == 1, 'C06.sibling/transpose', 'T-MUSTCALL', body.name, 'expected one transpose, found %d' % len(tr), body.site())
     # per-variable samples: transposed.remove(&d.id) with the variable itself (the aggregate sits in the loop of the normal form,
     # or in a closure the normal form did not splice)
@@ -374,8 +385,7 @@ def constraint_rules(ctx):
                       R + '/evaluate_samples/feasible-from-values', 'T-CARRY', b.name, 'per-sample feasibility does not derive from the evaluated values', b.site(bi))
             uop = agg_field_operand(st, 'used_decision_variable_ids')
             ctx.check(uop is not None and slice_op(ctx, b, uop).has_call('v1::Function as evaluate::Evaluate>::evaluate_samples'), R + '/evaluate_samples/used-ids', 'T-CARRY', b.name, 'used ids do not come from the function evaluation', b.site(bi))
-            rr = T.expr(b, agg_field_operand(st, 'removed_reason'))
-            ctx.check(rr[0] == 'agg' and rr[1].endswith('Option::None'), R + '/evaluate_samples/no-reason', 'T-CONST', b.name, 'active constraint gets a removal reason', b.site(bi))
+            ctx.check(field_is_none(ctx, b, sv, 'removed_reason'), R + '/evaluate_samples/no-reason', 'T-CONST', b.name, 'active constraint gets a removal reason', b.site(bi))
         error_propagates(ctx, R + '/evaluate_samples/error', b, [c for c in b.calls if c.item == 'evaluate_samples'], 'function evaluation')
         # the third copy of the feasibility rule: decided per (sample id, value) of the evaluated values, i.e. in the loop over them
         #   `values.iter().map(|(id, v)| { if eq == .. { return Ok((*id, ..)) } .. bail! }).collect::<Result<_>>()?`
@@ -543,6 +553,108 @@ def entry_base(e, adt, field):
     return None
 
 
+def membership_tests(ctx, b):
+    """Tests "the sample id (parameter 2) is one of X.ids" in every idiom; -> list of (identity of X, [GuardInfo]):
+         X.ids.contains(&id)
+         X.ids.iter().any(|x| *x == id)      (normal form: loop over X.ids, `item == id` => flag = true and leave, flag = false when exhausted)
+    `binary_search(&id).is_ok()` is deliberately not one of them: it is a membership test on sorted lists only (seeds C06-1 / C15-6)."""
+    out = []
+    for c in b.calls:
+        if c.item != 'contains' or len(c.args) != 2: continue
+        fs = T.access_path(b, c.args[0])[0]
+        if (SVE, 'ids') not in fs or T.strip_wrappers(T.expr(b, c.args[1])) != ('place', 2, []): continue
+        base = entry_base(T.expr(b, c.args[0]), SVE, 'ids')
+        if base is not None: out.append((base, T.guards_from_call(b, c)))
+    for lo in T.for_loops(b):
+        base = entry_base(T.expr(b, lo[0].args[0], depth=20), SVE, 'ids')
+        if base is None or restricting(ctx, b, lo): continue
+        item = lo[0].dst['l']
+        for bi, st in b.stmts():
+            rv = st['rv']
+            if bi not in lo[4] or rv['k'] != 'bin' or rv['op'] != 'Eq' or st['dst']['p']: continue
+            sides = [(canon(b, o) if o['k'] in ('copy', 'move') else (None, ())) for o in rv['ops']]
+            exprs = [T.strip_wrappers(T.expr(b, o)) for o in rv['ops']]
+            if not any(sd[0] == item and all(T.WRAPPER_OWNER.search(a) for a, f in sd[1]) and ex2 == ('place', 2, []) for sd, ex2 in ((sides[0], exprs[1]), (sides[1], exprs[0]))): continue
+            for sb, neg in T.bool_flow(b, st['dst']['l']):
+                tt, ft = T.switch_sides(b, sb, neg)
+                if tt is None or tt == ft: continue
+                hit = b.edge_region(sb, tt)
+                # the flag: `true` only on the equal side (and the loop is left), `false` only when the ids are exhausted
+                for d, ty in enumerate(b.locals):
+                    if ty != 'bool': continue
+                    defs = [(k, bb, x) for k, bb, x in b.defs_of(d)]
+                    trues = [bb for k, bb, x in defs if k == 'stmt' and x['rv']['k'] == 'use' and x['rv']['ops'][0].get('v') == 'true']
+                    falses = [bb for k, bb, x in defs if k == 'stmt' and x['rv']['k'] == 'use' and x['rv']['ops'][0].get('v') == 'false']
+                    if len(trues) + len(falses) != len(defs) or not trues or not falses: continue
+                    outside = {x for x in b.live if x not in lo[4]}
+                    left = lambda bb: lo[1] not in b.reach([x for x in b.succ(bb) if x in lo[4]], stop=outside)      # no further id is looked at
+                    if all(bb in hit and left(bb) for bb in trues) and all(bb not in lo[4] and (bb == lo[3] or b.dominates(lo[3], bb)) for bb in falses):
+                        out.append((base, T.guards_from_local(b, d, trues[0])))
+    return out
+
+
+def values_get_rules(ctx, R, b):
+    """SampledValues::get(id): the value of the (first) entry whose ids contain id, None if there is none.  Shapes of the search:
+         (a) for e in entries { if MEMBER(e) { return Some(e.value) } } None
+         (b) entries.iter().find(|e| MEMBER(e)).map(|e| e.value)                      found = Some(e) / None, mapped to .value
+         (c) let mut found = None; for e in entries { if found.is_none() && MEMBER(e) { found = Some(e.value) } } found      (or with `break`)
+       MEMBER in any idiom of membership_tests()."""
+    okk = False; nones = [e for e, k, rst in b.ret_assignments() if k == 'none']
+    lo_all = loops_over(ctx, b, 'v1::SampledValues', 'entries')
+    for bi_, guards in membership_tests(ctx, b):
+        for g in guards:
+            if g.true_bb is None: continue
+            tr = b.reach([g.true_bb]); only_true = b.edge_region(g.switch_bb, g.true_bb)
+            lo = [l for l in lo_all if g.switch_bb in l[4]]
+            # (a)
+            for e, k, rst in b.ret_assignments():
+                if e in tr and k in ('ok', 'val') and rst['rv']['k'] == 'agg':
+                    bv = entry_base(T.expr(b, rst['rv']['ops'][0]), SVE, 'value') if rst['rv']['ops'] else None
+                    if bv is not None and bv == bi_: okk = True
+            for e, k, rst in b.ret_assignments():
+                found = None; maps_value = True; want = 'entry'
+                if k == 'callval' and re.search(r'Option::<.*>::map::<', rst['r'] or rst['f']) and len(rst['args']) == 2:
+                    # (b) the entry itself is kept, the result mapped to its `.value`
+                    found = rst['args'][0]; maps_value = False
+                    cb, caps = closure_of(ctx, b, rst['args'][1])
+                    if cb is not None:
+                        rets = [T.expr(cb, rs['rv']['ops'][0]) for e2, k2, rs in cb.ret_assignments() if k2 == 'val' and rs['rv']['k'] == 'use']
+                        maps_value = bool(rets) and len(rets) == len(cb.ret_assignments()) and all(r[0] == 'place' and r[1] == 2 and [f for a, f in r[2]] == ['value'] for r in rets)
+                elif k == 'val' and rst['rv']['k'] == 'use' and rst['rv']['ops'][0]['k'] in ('copy', 'move'):
+                    found = rst['rv']['ops'][0]; want = 'value'                  # (c)
+                if found is None or found['k'] not in ('copy', 'move') or found['pl']['p'] or not maps_value: continue
+                fl = found['pl']['l']
+                defs = []
+                for kk, bb, d in b.defs_of(fl):
+                    # `found = Some(x)` is often `tmp = Some(x); found = move tmp`
+                    if kk == 'stmt' and d['rv']['k'] == 'use' and d['rv']['ops'][0]['k'] in ('copy', 'move') and not d['rv']['ops'][0]['pl']['p']:
+                        dd = b.defs_of(d['rv']['ops'][0]['pl']['l'])
+                        if len(dd) == 1 and dd[0][0] == 'stmt' and dd[0][2]['rv']['k'] == 'agg' and dd[0][1] == bb: d = dd[0][2]
+                    defs.append((kk, bb, d))
+                somes = [(bb, d) for kk, bb, d in defs if kk == 'stmt' and d['rv']['k'] == 'agg' and d['rv']['adt'].endswith('Option::Some')]
+                nn = [bb for kk, bb, d in defs if kk == 'stmt' and d['rv']['k'] == 'agg' and d['rv']['adt'].endswith('Option::None')]
+                if not somes or len(somes) + len(nn) != len(defs) or not lo or not (bi_[0] == 'call' and bi_[1] == lo[-1][0].bb): continue
+                kept = True
+                for bb, d in somes:
+                    if bb not in only_true: kept = False; continue
+                    if want == 'entry': kept = kept and canon(b, d['rv']['ops'][0])[0] == lo[-1][0].dst['l']
+                    else: kept = kept and entry_base(T.expr(b, d['rv']['ops'][0]), SVE, 'value') == bi_
+                    # the FIRST match is kept: the loop is left after the assignment, or the assignment is guarded by `found.is_none()`
+                    leaves = lo[-1][1] not in b.reach(b.succ(bb))
+                    guarded = False
+                    for c in b.calls:
+                        if c.item in ('is_none', 'is_some') and T.access_path(b, c.args[0])[1] == fl and not T.access_path(b, c.args[0])[0]:
+                            for g2 in T.guards_from_call(b, c):
+                                side = g2.true_bb if c.item == 'is_none' else g2.false_bb
+                                if side is not None and bb in b.edge_region(g2.switch_bb, side): guarded = True
+                    kept = kept and (leaves or guarded)
+                if kept:
+                    okk = True; nones += nn
+    ctx.check(okk, R + '/get/value-of-matching-entry', 'T-BRANCHFX', b.name, 'get does not return the value of the entry whose ids contain the sample id', b.site())
+    ctx.check(bool(nones), R + '/get/none-when-absent', 'T-BRANCHFX', b.name, 'no None result for an unknown sample id', b.site())
+    ctx.check(len(lo_all) >= 1 and not any(restricting(ctx, b, l) for l in lo_all), R + '/get/all-entries', 'T-LOOPMUST', b.name, 'no loop over all entries', b.site())
+
+
 def compress_rules(ctx):
     R = 'C06.compress'
     # Samples::map: each entry -> value of that entry's state, with that entry's ids
@@ -571,47 +683,7 @@ def compress_rules(ctx):
         ctx.check(s.has_field('v1::Samples', 'entries') and not restr, R + '/map/all-entries', 'T-LOOPMUST', b.name, 'map does not visit every entry %s' % restr, b.site())
     # SampledValues::get
     b = ctx.method(R + '/get/anchor', 'v1::SampledValues', 'get')
-    if b is not None:
-        cont = [c for c in b.calls if c.item == 'contains']
-        okk = False; nones = [e for e, k, rst in b.ret_assignments() if k == 'none']
-        lo_all = loops_over(ctx, b, 'v1::SampledValues', 'entries')
-        for c in cont:
-            fs = T.access_path(b, c.args[0])[0]
-            key = T.strip_wrappers(T.expr(b, c.args[1]))
-            if (SVE, 'ids') not in fs or key != ('place', 2, []): continue
-            bi_ = entry_base(T.expr(b, c.args[0]), SVE, 'ids')
-            for g in T.guards_from_call(b, c):
-                if g.true_bb is None: continue
-                tr = b.reach([g.true_bb]); only_true = b.edge_region(g.switch_bb, g.true_bb)
-                # (a) `if e.ids.contains(&id) { return Some(e.value) }`
-                for e, k, rst in b.ret_assignments():
-                    if e in tr and k in ('ok', 'val'):
-                        vx = T.expr(b, rst['rv']['ops'][0])
-                        bv = entry_base(vx, SVE, 'value')
-                        if bv is not None and bv == bi_: okk = True
-                # (b) `entries.iter().find(|e| e.ids.contains(&id)).map(|e| e.value)`: on the true side the entry itself is
-                #     kept as Some(entry), None when the loop is exhausted, and the result is mapped to its `.value`
-                for e, k, rst in b.ret_assignments():
-                    if k != 'callval' or not re.search(r'Option::<.*>::map::<', rst['r'] or rst['f']): continue
-                    found = rst['args'][0]; cl = ctx.S.slice_operand(b, rst['args'][1]).closures if len(rst['args']) > 1 else set()
-                    if found['k'] not in ('copy', 'move') or found['pl']['p']: continue
-                    defs = b.defs_of(found['pl']['l'])
-                    somes = [(bb, d) for kk, bb, d in defs if kk == 'stmt' and d['rv']['k'] == 'agg' and d['rv']['adt'].endswith('Option::Some')]
-                    nn = [bb for kk, bb, d in defs if kk == 'stmt' and d['rv']['k'] == 'agg' and d['rv']['adt'].endswith('Option::None')]
-                    lo = [l for l in lo_all if c.bb in l[4]]
-                    kept = bool(somes) and len(somes) + len(nn) == len(defs) and bool(lo) and bi_ is not None and bi_[0] == 'call' and bi_[1] == lo[-1][0].bb \
-                        and all(bb in only_true and canon(b, d['rv']['ops'][0])[0] == lo[-1][0].dst['l'] for bb, d in somes)
-                    maps_value = False
-                    for cn in cl:
-                        cb = ctx.F.bodies.get(cn)
-                        if cb is None: continue
-                        rets = [T.expr(cb, rs['rv']['ops'][0]) for e2, k2, rs in cb.ret_assignments() if k2 == 'val' and rs['rv']['k'] == 'use']
-                        maps_value = bool(rets) and all(r[0] == 'place' and r[1] == 2 and [f for a, f in r[2]] == ['value'] for r in rets)
-                    if kept and maps_value:
-                        okk = True; nones += nn
-        ctx.check(okk, R + '/get/value-of-matching-entry', 'T-BRANCHFX', b.name, 'get does not return the value of the entry whose ids contain the sample id', b.site())
-        ctx.check(bool(nones), R + '/get/none-when-absent', 'T-BRANCHFX', b.name, 'no None result for an unknown sample id', b.site())
-        ctx.check(len(lo_all) >= 1 and not any(restricting(ctx, b, l) for l in lo_all), R + '/get/all-entries', 'T-LOOPMUST', b.name, 'no loop over all entries', b.site())
+    if b is not None: values_get_rules(ctx, R, b)
     # SampledValues::iter: (id, value) of the same entry
     b = ctx.method(R + '/iter/anchor', 'v1::SampledValues', 'iter')
     if b is not None:
@@ -669,6 +741,11 @@ def transpose_rules(ctx, R, b):
             if restr: why.append('iterator restricted by %s' % restr)
             loop_must(ctx, R + '/transpose/every-value', b, inner, lambda x: x is c, 'push(sample_id)')
         ctx.check(ok and not why, R + '/transpose/keyed', 'T-CARRY', b.name, 'sample id is not pushed under (variable id, value) of the same state entry: %s' % ('; '.join(why) or 'no loop nest'), b.site(c.bb))
+
+
+# evaluate_samples resolves the dependent variables of every state through eval_dependencies (C04.deps) and has to call it on the
+# dependency map (C04.use); those rule families are re-decided under this property
+RELIES_ON = {'C04': ['C04.deps', 'C04.use']}
 
 
 def check(ctx):
